@@ -28,6 +28,8 @@ def check(c: Check):
     clause_b(c)
     clause_c(c)
     clause_d(c)
+    from .common import check_application_purity
+    check_application_purity(c, 'C13-e', ['exactly_lib.type_val_prims.string_transformer:StringTransformer', 'exactly_lib.type_val_prims.matcher.matcher_base_class:MatcherWTrace'], floor=25)
 
 
 # ---------------------------------------------------------------- helpers
